@@ -179,17 +179,22 @@ def run(ctx):
             txt = ast.dump(mod)
             txt = txt.replace('Constant(value=%d)' % purpose, 'Constant(value=PURPOSE)').replace("attr='bip%d_group'" % purpose, "attr='GROUP'")
             dumps[purpose] = txt
+            # defaults, semantically: the call without arguments is the call with account 0 and interval (0, 20) - however the
+            # defaults are spelt (parameter defaults, None resolved inside, class constants)
+            from .C15 import paper_wallet as _pw
+            w_, _ = _pw('prv', T.FALSE, p)
             ev = Evaluator(p, 'ecdsa')
-            fr = __import__('sa.evalr', fromlist=['Frame']).Frame(fi, {}, Facts(), fi.module, fi.cls, 0)
-            dflt = [ev.expr(fi.defaults[q], fr) for q in ('account', 'interval') if q in fi.defaults]
-            same_term(ob, T.tup(dflt), T.tup([T.const(0), T.tup([T.const(0), T.const(20)])]), 'bip%d defaults (account 0, interval (0, 20))' % purpose, fi.where)
+            q_ = 'paper_wallet.PaperWallet.bip%d' % purpose
+            v_def, _ = ev.call_function(q_, [w_])
+            v_exp, _ = ev.call_function(q_, [w_], {'account': T.const(0), 'interval': T.tup([T.const(0), T.const(20)])})
+            same_term(ob, v_def, v_exp, 'bip%d() without arguments is bip%d(account=0, interval=(0, 20))' % (purpose, purpose), fi.where)
         ob.require(dumps[44] == dumps[49] == dumps[84], 'bip44/bip49/bip84 differ in more than (purpose constant, group method)',
                    p.get_function('paper_wallet.PaperWallet.bip49').where)
         fg = p.get_function('paper_wallet.PaperWallet.generate')
         ev = Evaluator(p, 'ecdsa')
-        fr = __import__('sa.evalr', fromlist=['Frame']).Frame(fg, {}, Facts(), fg.module, fg.cls, 0)
-        dflt = [ev.expr(fg.defaults[q], fr) for q in ('account', 'interval') if q in fg.defaults]
-        same_term(ob, T.tup(dflt), T.tup([T.const(0), T.tup([T.const(0), T.const(20)])]), 'generate defaults', fg.where)
+        v_def, _ = ev.call_function('paper_wallet.PaperWallet.generate', [w_])
+        v_exp, _ = ev.call_function('paper_wallet.PaperWallet.generate', [w_], {'account': T.const(0), 'interval': T.tup([T.const(0), T.const(20)])})
+        same_term(ob, v_def, v_exp, 'generate() without arguments is generate(account=0, interval=(0, 20))', fg.where)
     # ---------------------------------------------------------------- version labels by interval arithmetic
     with ctx.obligation('C06.LABELS', 'Version.bip*_data labels', None, p.get_function('wallet_utils.Version.bip44_data').where) as ob:
         ev = Evaluator(p, 'ecdsa')
